@@ -173,6 +173,7 @@ struct res_s {
 	int hung;
 	int64_t first, last;
 	int nbad;
+	int revived;	/* an occurrence was delivered after end-of-stream had been answered */
 };
 
 static int64_t keep[MAXPOPS + 8];
@@ -226,9 +227,12 @@ ask(const struct cas_s *c, double budget, struct res_s *r)
 	if (r->ended == 1) {
 		/* the end must be stable and cheap too */
 		for (int i = 0; i < 2; i++) {
-			(void)echs_evstrm_next(t->strm);
-			(void)echs_evstrm_pop(t->strm);
+			echs_event_t e1 = echs_evstrm_next(t->strm);
+			echs_event_t e2 = echs_evstrm_pop(t->strm);
 			sf_progress++;
+			if (!echs_nul_event_p(e1) || !echs_nul_event_p(e2)) {
+				r->revived = 1 + i;
+			}
 		}
 	}
 	sf_disarm();
@@ -264,6 +268,11 @@ run(struct cas_s *c, struct res_s *r)
 		return 0;
 	}
 	if (!r->hung) {
+		if (r->revived) {
+			char sig[320];
+			snprintf(sig, sizeof(sig), "revived/%s/%s", c->shape, c->emb);
+			vd_viol(sig, "after %ld occurrences the stream answered end-of-stream, asked again (%d) it delivers an occurrence", r->n, r->revived);
+		}
 		return 1;
 	}
 	vd_count("stage1_no_answer", 1);
